@@ -1403,7 +1403,11 @@ impl Relation {
                 );
             } else {
                 let name_node = self.0.children_with_tokens().find(|n| n.kind() == IDENT);
-                let idx = if let Some(name_node) = name_node {
+                // The version constraint follows the architecture qualifier, if there is one
+                let archqual_node = self.0.children().find(|n| n.kind() == ARCHQUAL);
+                let idx = if let Some(archqual_node) = archqual_node {
+                    archqual_node.index() + 1
+                } else if let Some(name_node) = name_node {
                     name_node.index() + 1
                 } else {
                     0
